@@ -419,7 +419,7 @@ ADDENDA = {
     "C01": "Round 4: add_annotation keeps / widens the dtype of an existing annotation as documented; a flag carried through a loop is "
            "accumulated, not overwritten by the last iteration; the cached array length is written wherever atoms are removed and a bond "
            "list of another length is refused (rules shared with C17).",
-    "C03": "The codon digit functions are compared as whole functions with the radix computation they have to be (literal loops written "
+    "C03": "Symbols handed to a constructor are not read twice from a one-shot iterator. The codon digit functions are compared as whole functions with the radix computation they have to be (literal loops written "
            "out, both sides summarised, canonical forms compared: sa/equiv.py); decode refuses exactly code < 0 and code >= len(symbols) "
            "(canonical guards of the summarised function); alphabets are compared by value.",
     "C06": "Round 4: container equality compares the key sets of both sides; a constructor leaves the mapping it is given unchanged.",
@@ -434,6 +434,11 @@ ADDENDA = {
     "C12": "Round 4: wrap_string is exactly the concatenation of the width-slices of its input; GFF numbers are written with their full "
            "text (no lossy format specification).",
     "C13": "Round 4: the IUPAC complement table is checked symbol by symbol against the set semantics of the codes (shared with C03).",
+    "C05": "Round 5: the MessagePack fallback hook hands back the NumPy scalar's own Python value (whole-function comparison).",
+    "C15": "Round 5: coord() converts plain arrays to float32 (whole-function comparison); the per-model dispatch of displacement is "
+           "decided by the paths that reach each helper; the eight lattice images may be written as loops, a comprehension or a product.",
+    "C16": "Round 5: the anchor columns (0 = fixed, 1 = mobile) are checked wherever a structure expression is indexed with them, "
+           "tm.py included.",
     "C14": "Conversions between C number types stay visible to the rules (`<int>sq_dist` is not `sq_dist`); the squared radii are composed "
            "from the function's inputs through _prepare_vectorization; facts are killed by writes through pointer aliases.",
     "C17": "Round 4: the cached array length follows every removal of atoms; a bond list of another length is refused on assignment.",
